@@ -105,7 +105,7 @@ package classifier
 //@   ensures fresh(result) && wfDict(result) && fresh(result.words) && fresh(result.indices)
 //@   ensures len(result.words) == 0 && len(result.indices) == 0
 //@   modifies nothing
-//@   props C10 C09
+//@   props C10 C09 C04
 //@
 //@ func (*dictionary).getIndex
 //@   requires d != nil
@@ -131,7 +131,7 @@ package classifier
 //@ func newFrequencyTable
 //@   ensures fresh(result) && result.counts != nil && fresh(result.counts) && len(result.counts) == 0
 //@   modifies nothing
-//@   props C10 C09
+//@   props C10 C09 C04
 //@
 //@ func (*frequencyTable).update
 //@   requires f != nil && f.counts != nil && d != nil
@@ -144,7 +144,7 @@ package classifier
 //@   ensures d.f != nil && fresh(d.f) && d.f.counts != nil && fresh(d.f.counts)
 //@   ensures d.Tokens == old(d.Tokens) && d.dict == old(d.dict) && d.runes == old(d.runes) && d.Matches == old(d.Matches) && d.s == old(d.s) && d.Norm == old(d.Norm)
 //@   modifies d.f
-//@   props C10 C09
+//@   props C10 C09 C04
 //@
 //@ func (*indexedDocument).tokenSimilarity
 //@   requires d != nil && d.f != nil && o != nil && o.f != nil
@@ -155,7 +155,7 @@ package classifier
 //@   requires d != nil
 //@   ensures result == len(d.Tokens)
 //@   modifies nothing
-//@   props C10 C09
+//@   props C10 C09 C04
 //
 // ---------------------------------------------------------------- package-level variables
 //@ global unknownIndex-is-zero: unknownIndex == 0
@@ -203,14 +203,14 @@ package classifier
 //@   requires s != nil && s.dict != nil && q >= 0
 //@   ensures fresh(result) && wfSet(result) && result.Tokens == s.Tokens
 //@   modifies nothing
-//@   props C10 C09
+//@   props C10 C09 C04
 //@
 //@ func (*indexedDocument).generateSearchSet
 //@   requires d != nil && d.dict != nil && q >= 0
 //@   ensures fresh(d.s) && wfSet(d.s) && d.s.Tokens == d.Tokens
 //@   ensures d.Tokens == old(d.Tokens) && d.dict == old(d.dict) && d.runes == old(d.runes) && d.Matches == old(d.Matches) && d.f == old(d.f) && d.Norm == old(d.Norm)
 //@   modifies d.s
-//@   props C10 C09
+//@   props C10 C09 C04
 //
 //@ // sort.Sort on this package's sortable slices (ASSUMED: standard library).
 //@ // It permutes the slice through Swap and writes nothing else.
@@ -247,7 +247,7 @@ package classifier
 //@   loop 4 invariant forall o int :: (o in offsetMappings) ==> ref(offsetMappings[o]) != ref(matched) && fresh(offsetMappings[o])
 //@   loop 4 invariant forall j int :: 0 <= j && j < len(mr) ==> okMR(mr[j], len(target.Tokens)) && fresh(mr[j])
 //@   loop 4 invariant ref(mr) != ref(matched)
-//@   props C10 C09
+//@   props C10 C09 C04
 //
 //@ func (*Classifier).detectRuns
 //@   requires c != nil && targetLength >= 0 && subsetLength >= 0
@@ -262,7 +262,7 @@ package classifier
 //@   loop 5 invariant 1 <= i && len(final) >= 1 && fresh(final)
 //@   loop 5 invariant forall k int :: 0 <= k && k < len(final) ==> 0 <= final[k].SrcStart && final[k].SrcStart < len(hits)
 //@   loop 5 invariant forall k int :: 0 <= k && k < len(out) ==> 0 <= out[k] && out[k] < len(hits)
-//@   props C10 C09
+//@   props C10 C09 C04
 //
 //@ func (*matchRange).in
 //@   inline
@@ -280,19 +280,19 @@ package classifier
 //@   loop 4 invariant len(filter) == targetSize && fresh(filter) && okMRs(matched, targetSize) && okMRs(claimed, targetSize) && (claimed == nil || fresh(claimed)) && okMR(m, targetSize)
 //@   loop 4 invariant forall k int :: 0 <= k && k < len(claimed) ==> pointee(matched, claimed[k])
 //@   loop 4 invariant pointee(matched, m)
-//@   props C10 C09
+//@   props C10 C09 C04
 //
 //@ func (*Classifier).getMatchedRanges
 //@   requires c != nil && wfSet(src) && wfSet(target)
 //@   ensures okMRs(result, len(target.Tokens))
 //@   modifies nothing
-//@   props C10 C09
+//@   props C10 C09 C04
 //@
 //@ func (*Classifier).findPotentialMatches
 //@   requires c != nil && wfSet(src) && wfSet(target)
 //@   ensures okMRs(result, len(target.Tokens))
 //@   modifies nothing
-//@   props C10 C09 C03
+//@   props C10 C09 C03 C04
 //@
 //@ func (matchRanges).Len
 //@   ensures result == len(m)
@@ -321,14 +321,14 @@ package classifier
 //@   ensures len(result) == end - start && fresh(result)
 //@   modifies nothing
 //@   loop 1 invariant len(runes) == rangeindex + 1 && fresh(runes) && cap(runes) == end - start
-//@   props C10 C09
+//@   props C10 C09 C04
 //@
 //@ func diffRunesToWords
 //@   requires dict != nil
 //@   ensures len(result) == len(diffs) && fresh(result)
 //@   modifies nothing
 //@   loop 1 invariant len(hydrated) == rangeindex + 1 && fresh(hydrated) && cap(hydrated) == len(diffs)
-//@   props C10 C09
+//@   props C10 C09 C04
 //@
 //@ func docDiff
 //@   requires doc1 != nil && doc2 != nil && doc1.dict != nil
@@ -336,17 +336,17 @@ package classifier
 //@   requires 0 <= doc2Start && doc2Start <= doc2End && doc2End <= cap(doc2.runes)
 //@   ensures fresh(result)
 //@   modifies nothing
-//@   props C10 C09
+//@   props C10 C09 C04
 //@
 //@ func isVersionNumber
 //@   modifies nothing
-//@   props C10 C09
+//@   props C10 C09 C04
 //@
 //@ func scoreDiffs
 //@   requires nsep(id, runeStr(47)) >= 1
 //@   ensures result >= 0 || result == -1 || result == -2 || result == -3
 //@   modifies nothing
-//@   props C10 C09 C02
+//@   props C10 C09 C02 C04
 //@
 //@ func (*Classifier).score
 //@   requires c != nil && unknown != nil && known != nil && known.s != nil && unknown.dict != nil
@@ -355,7 +355,7 @@ package classifier
 //@   ensures result1 >= 0 && result2 >= 0
 //@   ensures !isNaN(result0) && result0 <= 1.0
 //@   modifies nothing
-//@   props C10 C03 C02 C09
+//@   props C10 C03 C02 C09 C04
 //@
 // ---------------------------------------------------------------- classifier.go: names
 //
@@ -401,21 +401,21 @@ package classifier
 //@
 //@ func header
 //@   modifies nothing
-//@   props C10 C09
+//@   props C10 C09 C04
 //@
 //@ func normalizeToken
 //@   modifies nothing
-//@   props C10 C09
+//@   props C10 C09 C04
 //@
 //@ func cleanupToken
 //@   modifies nothing
-//@   props C10 C09
+//@   props C10 C09 C04
 //@
 //@ func flushBuf
 //@   requires wfDict(ld)
 //@   ensures wfDict(ld) && ld.words == old(ld.words) && ld.indices == old(ld.indices)
 //@   modifies entries(ld.words), entries(ld.indices)
-//@   props C10 C09
+//@   props C10 C09 C04
 //@
 //@ spec pseudo(m *Match, line int) bool = m != nil && m.Name == "Copyright" && m.MatchType == "Copyright" && m.Confidence == 1.0 && m.StartLine == line && m.EndLine == line
 //@
@@ -428,7 +428,7 @@ package classifier
 //@   modifies entries(dict.words) when updateDict
 //@   modifies entries(dict.indices) when updateDict
 //@   loop 3 invariant (tokens == nil || fresh(tokens)) && (forall i int :: 0 <= i && i < len(tokens) ==> tokens[i].Line == line)
-//@   props C10 C09 C03 C06
+//@   props C10 C09 C03 C06 C04
 //@
 //@ func appendToDoc
 //@   requires doc != nil && dict != nil && ld != nil && (updateDict ==> wfDict(dict)) && line >= 1
@@ -441,12 +441,14 @@ package classifier
 //@   modifies doc.Tokens, doc.Matches, elems(doc.Tokens), elems(doc.Matches)
 //@   modifies entries(dict.words) when updateDict
 //@   modifies entries(dict.indices) when updateDict
-//@   props C10 C09 C03 C06
+//@   props C10 C09 C03 C06 C04
 //@
 //@ func tokenizeStream
 //@   requires dict != nil && ((updateDict || !normalize) ==> wfDict(dict))
 //@   ensures result1 != nil ==> result0 == nil
 //@   ensures typeis(src, "*bytes.Reader") ==> result1 == nil
+//@   ensures result1 != nil ==> result1 == lastReadErr
+//@   ensures readFailed(lastReadErr) ==> result1 == lastReadErr
 //@   ensures result1 == nil ==> fresh(result0) && wfDoc(result0) && result0.dict == dict && result0.s == nil && fresh(result0.f) && (result0.runes == nil || fresh(result0.runes))
 //@   ensures dict.words == old(dict.words) && dict.indices == old(dict.indices)
 //@   modifies entries(dict.words) when updateDict || !normalize
@@ -460,7 +462,7 @@ package classifier
 //@   loop 2 invariant okLines(&doc) && okPseudo(doc.Matches) && (doc.Tokens == nil || fresh(doc.Tokens)) && (doc.Matches == nil || fresh(doc.Matches))
 //@   loop 2 invariant (obuf == nil || fresh(obuf)) && (linebuf == nil || fresh(linebuf))
 //@   loop 3 invariant obuf == nil || fresh(obuf)
-//@   props C10 C03 C08 C09
+//@   props C10 C03 C08 C09 C04
 //@
 //@ func NewClassifier
 //@   requires 0.0 <= threshold && threshold <= 1.0
@@ -538,6 +540,7 @@ package classifier
 //@ func (*Classifier).match
 //@   requires wfClassifier(c) && 0.0 <= c.threshold && c.threshold <= 1.0
 //@   ensures result1 != nil ==> len(result0.Matches) == 0
+//@   ensures readFailed(lastReadErr) ==> result1 == lastReadErr
 //@   ensures forall i int :: 0 <= i && i < len(result0.Matches) ==> okRes(result0.Matches[i], c.threshold, result0.TotalInputLines)
 //@   ensures sortedConf(result0.Matches)
 //@   modifies nothing
@@ -565,6 +568,7 @@ package classifier
 //@ func (*Classifier).MatchFrom
 //@   requires wfClassifier(c) && 0.0 <= c.threshold && c.threshold <= 1.0
 //@   ensures result1 != nil ==> len(result0.Matches) == 0
+//@   ensures readFailed(lastReadErr) ==> result1 == lastReadErr
 //@   modifies nothing
 //@   props C10 C08 C09 C04
 //@
@@ -576,7 +580,7 @@ package classifier
 //@ func (*indexedDocument).normalized
 //@   requires d != nil && d.dict != nil
 //@   modifies nothing
-//@   props C10 C09
+//@   props C10 C09 C04
 //
 // ---------------------------------------------------------------- Normalize, LoadLicenses
 //
